@@ -105,7 +105,7 @@ func mutateText(r *rand.Rand, s string, vocab []string) string {
 
 func C17(e *core.Env) {
 	res := e.Res
-	res.Rule = "cases = (profile text, data text, entry point), each call under recover with a 20 s (quick) / 30 s (thorough) wall-clock bound (after two calls that block the run stops and reports them with the calls made before): the pools of C11 (every failure point), documents without nodes ([], {}, null, scalars, {\"@graph\": []}) which must conform, structured mutations of valid profiles and documents (delete / duplicate / swap lines, replace tokens and values by items of a vocabulary of keywords, prefixes, paths, scalars of other kinds, empty containers; truncation; byte flips) and raw byte strings, YAML anchors / aliases / merge keys incl. self-referencing ones (each in a child process, exit status 0 required), through Validate, ValidateWithConfiguration, CompileProfile + ValidateCompiled, ValidateCompiledWithConfiguration, with and without an event channel; " +
+	res.Rule = "cases = (profile text, data text, entry point), each call under recover with a 20 s (quick) / 30 s (thorough) wall-clock bound (after two calls that block the run stops and reports them with the calls made before): the pools of C11 (every failure point), documents without nodes ([], {}, null, scalars, {\"@graph\": []}) which must conform, structured mutations of valid profiles and documents (delete / duplicate / swap lines, replace tokens and values by items of a vocabulary of keywords, prefixes, paths, scalars of other kinds, empty containers; truncation; byte flips) and raw byte strings, YAML anchors / aliases / merge keys incl. self-referencing ones (each in a child process, exit status 0 required), 8 goroutines validating at once in a child process (a fatal runtime error ends the process), through Validate, ValidateWithConfiguration, CompileProfile + ValidateCompiled, ValidateCompiledWithConfiguration, with and without an event channel; " +
 		"any panic or timeout is a violation; non-trivial = the call returns an error (the input was rejected, not merely accepted); distinct by input text"
 	compiled := compilePool(res)
 	rc := config.DefaultReportConfiguration()
@@ -202,6 +202,35 @@ func C17(e *core.Env) {
 		}
 		res.Case("alias|"+n, strings.HasPrefix(js["report"], "error"))
 		res.Count("stream=yaml-aliases")
+	}
+	// 2c. several goroutines validating at once, in a child process: a fatal runtime error (concurrent map writes ...) is not
+	// a panic, cannot be recovered by the library and ends the caller's process - no report, no error value
+	for _, pd := range [][2]string{{PoolProfileLevels, PoolDataBad}, {PoolProfileMin, PoolDataGood}} {
+		pf, df := filepath.Join(e.Scratch, "conc.yaml"), filepath.Join(e.Scratch, "conc.jsonld")
+		os.WriteFile(pf, []byte(pd[0]), 0o644)
+		os.WriteFile(df, []byte(pd[1]), 0o644)
+		ctx, cancel := context.WithTimeout(context.Background(), 240*time.Second)
+		cmd := exec.CommandContext(ctx, self, "c06conc", pf, df, fmt.Sprint(e.Pick(40, 400)))
+		var so, se bytes.Buffer
+		cmd.Stdout, cmd.Stderr = &so, &se
+		err := cmd.Run()
+		cancel()
+		var cr struct {
+			Ref   string
+			Diffs []string
+		}
+		if err != nil || json.Unmarshal(so.Bytes(), &cr) != nil {
+			res.Violate("impl-violates-property", "the process ends abnormally when 8 goroutines validate at once: "+core.Trunc(firstLineWith(se.String(), "fatal error", "panic:"), 160),
+				map[string]any{"profile": pd[0], "data": pd[1], "how": "8 goroutines x ValidateWithConfiguration of these inputs in a child process (verifh c06conc)", "exit": fmt.Sprint(err), "stderr_head": core.Trunc(se.String(), 1500)})
+		} else {
+			for _, d := range cr.Diffs {
+				if strings.HasPrefix(d, "panic:") {
+					res.Violate("impl-violates-property", "a panic escapes an entry point when 8 goroutines validate at once: "+core.Trunc(d, 160), map[string]any{"profile": pd[0], "data": pd[1], "panic": d})
+				}
+			}
+		}
+		res.Case("concurrent-child|"+fmt.Sprint(len(pd[0])), true)
+		res.Count("stream=concurrent-child-process")
 	}
 	// 3. mutation stream
 	pvocab := []string{"", "[]", "{}", "~", "5", "true", "- x", "ex.a", "ex.a / ex.b", "ex.a |", "( ex.a", "nope.a", "my_ns.a", "@type", "not", "and", "or", "if", "then", "else", "nested",
